@@ -203,7 +203,7 @@ Proof.
   assert (Hdsne : ds <> []).
   { destruct tks as [|[toks key] r].
     - destruct paths as [|p ps]; [congruence|]. rewrite split_paths_cons in Hsp.
-      destruct (split_path p); [|discriminate]. destruct (split_paths ps); discriminate.
+      destruct (parse_path p); [|discriminate]. destruct (split_paths ps); discriminate.
     - cbn [T1j.issue_fold] in Hf. destruct (ie_salts E) as [|salt ss]; [discriminate|].
       destruct (Issuer1.build_disclosure _ _ _ _ _ C toks key salt) as [[c1 d]|]; [|discriminate]. cbn [bind] in Hf.
       destruct (T1j.issue_fold _ _ _ _ _ c1 r ss) as [[c2 ds']|]; [|discriminate]. cbn [bind] in Hf. injection Hf as _ <-. discriminate. }
